@@ -49,6 +49,22 @@ CHECKS = {
              "XML; the projection of everything the real parser accepts is sent back to TLC, which evaluates the declarative predicate "
              "Conformant on it (one-directional: rejecting is always fine).",
         design="6/C13", technique=CODEC_TECH + "; TLC judges the real parser's outputs (CodecJudge.tla)"),
+    "C18": dict(
+        text="Transport.tla models the three connection handlers at await granularity on asyncio's FIFO loop (Tick = one iteration); "
+             "TLC explores every interleaving of accepts, inputs (messages, junk, partial element, EOF, reset, raising device), device "
+             "messages, loop iterations and completions/failures of awaitables for 2 connections and checks CleanEnd, PolicyOnlyForClients, "
+             "NoDeliveryAfterEnd, OthersServed. Real TCP/TTY handlers run on fake streams under a stepping loop: every fault kind is injected "
+             "after every step of a session script (both transports) plus seeded random sessions; each step is projected (router.clients, "
+             "blob_routing, writer.closed, output streams) and validated against the model step by step and against the property-level "
+             "contract (TraceTransportContract.tla); only contract rejections are violations.",
+        design="6/C18", technique="TLA+ spec (Transport.tla) + TLC exhaustive model checking; TLC trace validation of real handlers (model + contract)"),
+    "C19": dict(
+        text="Same model: send tasks, sender lock (asyncio.Lock semantics incl. queued waiters), TCP write+drain, TTY thread-pool write+flush; "
+             "TLC checks WholeInOrder/PrefixWhenNoFailure/OneInFlight in all schedules, Isolation as fair liveness with one connection stalled, "
+             "and that the lock-less TTY variant violates them. Real handlers: DFS over all schedules (route next / one loop iteration / complete "
+             "or fail any outstanding awaitable) for bursts on 1-3 connections of each transport incl. a never-completing connection; output "
+             "streams are split by an independent splitter and compared with what was routed, at every step, by TLC.",
+        design="6/C19", technique="TLA+ spec (Transport.tla) + TLC exhaustive model checking and fair liveness; TLC trace validation of real handlers (model + contract)"),
     "C20": dict(
         text="TLC generates pairs (message, single-point perturbation or rebuilt copy) over the codec grammar with the structural verdict "
              "a = b on the abstract trees (EqIffSame checked on the model); both sides are built as real objects (fresh, through the wire, "
